@@ -31,7 +31,7 @@ struct Driver* acquire_driver_init_v0(void (*reporter)(int, const char*, int, co
 }
 
 // ---------------------------------------------------------------- fake-kernel front end
-enum WKind { W_FULL = 0, W_SHORT_BY_1, W_ONE_BYTE, W_ZERO, W_EIO, W_NKINDS };
+enum WKind { W_FULL = 0, W_SHORT_BY_1, W_ONE_BYTE, W_ZERO, W_EIO, W_EINTR /* -1/EINTR: nothing written, the call may be repeated */, W_NKINDS };
 struct Env {
     bool in_device = false;           // calls made while a device entry point runs are attributed to the device
     std::set<int> owned;              // descriptors the device opened and has not closed
@@ -120,6 +120,7 @@ extern "C" ssize_t pwrite(int fd, const void* buf, size_t n, off_t off)
         case W_SHORT_BY_1: if (n > 1) n -= 1; break;
         case W_ONE_BYTE: if (n > 1) n = 1; break;
         case W_ZERO: ++ENV.zero_writes; return 0;
+        case W_EINTR: ++ENV.failed_writes; errno = EINTR; return -1;
         case W_EIO: ++ENV.failed_writes; if (ENV.stall) return 0; errno = ENV.fail_errno; return -1;
     }
     return syscall(SYS_pwrite64, fd, buf, n, off);
@@ -151,10 +152,12 @@ static void h_rmtree(const std::string& d) { std::string c = "rm -rf '" + d + "'
 // a foreign descriptor is opened and closed around device calls so that freed numbers are reused at once
 static int g_foreign = -1;
 static std::string g_scratch;
+static bool g_keep_fd0_free = false; // scenarios in which descriptor 0 is free for the device to get (stdin closed): the foreign file stays off it
 static void foreign_shuffle()
 {
     if (g_foreign >= 0) h_close(g_foreign);
     g_foreign = h_open((g_scratch + "/foreign.bin").c_str(), O_RDWR | O_CREAT, 0644);
+    if (g_keep_fd0_free && g_foreign == 0) { g_foreign = (int)syscall(SYS_fcntl, 0, F_DUPFD, 3); h_close(0); }
 }
 
 // ---------------------------------------------------------------- devices through the real HAL
